@@ -541,6 +541,19 @@ pub fn crowded_and_losing(w: &Worker, thorough: bool, idx: &mut usize, judge: &d
     }
 }
 
+/// "depth D score ... pv ..." of every iteration report of a log (nodes, time and nps left out)
+pub fn iteration_reports(log: &[String]) -> Vec<String> {
+    log.iter()
+        .filter(|l| l.starts_with("info depth"))
+        .map(|l| {
+            let t: Vec<&str> = l.split_whitespace().collect();
+            let depth = t.get(2).copied().unwrap_or("?");
+            let from = t.iter().position(|x| *x == "score").unwrap_or(t.len());
+            format!("depth {depth} {}", t[from..].join(" "))
+        })
+        .collect()
+}
+
 /// `scenario` key of a replay record for the tag of a search
 pub fn scenario_of(tag: &str) -> Option<&'static str> {
     match tag {
@@ -669,8 +682,31 @@ pub fn c14_worker(args: &Args, w: &Worker) -> i32 {
                 }
             }
         }
-        // node- and time-limited searches: ordering, grammar and PV clauses at every cut point
+        // node- and time-limited searches: ordering, grammar and PV clauses at every cut point,
+        // and truthfulness: what a cut search reports as finished iterations must be a PREFIX of
+        // what the uninterrupted search reports (same depth, score and PV line by line)
         let base = searchrun::run(&board, &case_for(p, &Limits { depth: Some(3), ..Default::default() }, Cut::ClockNever), &fresh);
+        let base_reports = iteration_reports(&base.log);
+        let prefix_check = |w: &Worker, c: &Case, out: &Out, tag: &str| {
+            let got = iteration_reports(&out.log);
+            if out.panicked.is_none() && (got.len() > base_reports.len() || got.iter().zip(base_reports.iter()).any(|(a, b)| a != b)) {
+                let k = got.iter().zip(base_reports.iter()).position(|(a, b)| a != b).unwrap_or(base_reports.len().min(got.len()));
+                w.violation(
+                    &format!("{}|{tag}|prefix", c.sig()),
+                    &format!(
+                        "'{}' [{}] on {} ({}): iteration report #{} of the interrupted search is '{}' but the uninterrupted search reports '{}' - a report that does not describe a finished iteration",
+                        c.limits.go_line(),
+                        c.cut.text(),
+                        p.fen,
+                        p.name,
+                        k + 1,
+                        got.get(k).cloned().unwrap_or_default(),
+                        base_reports.get(k).cloned().unwrap_or_else(|| "nothing more".into())
+                    ),
+                    &c.json(),
+                );
+            }
+        };
         if base.panicked.is_none() && base.nodes <= if thorough { 20_000 } else { 4_000 } {
             for n in 1..=base.nodes {
                 let l = Limits { nodes: Some(n), ..Default::default() };
@@ -679,6 +715,7 @@ pub fn c14_worker(args: &Args, w: &Worker) -> i32 {
                 let out = searchrun::run(&board, &c, &fresh);
                 w.count("node_limited_searches", 1);
                 report(w, &c, p, &pos, &out, None, "nodes");
+                prefix_check(w, &c, &out, "nodes");
             }
             for k in 1..=base.clock_calls.min(if thorough { 4_000 } else { 800 }) {
                 let l = Limits { movetime: Some(50), ..Default::default() };
@@ -687,6 +724,15 @@ pub fn c14_worker(args: &Args, w: &Worker) -> i32 {
                 let out = searchrun::run(&board, &c, &fresh);
                 w.count("time_limited_searches", 1);
                 report(w, &c, p, &pos, &out, None, "clock");
+                prefix_check(w, &c, &out, "clock");
+                // the same cut on the clock-management path (wtime/btime instead of movetime)
+                let l2 = Limits { wtime: Some(1000), btime: Some(1000), ..Default::default() };
+                let mut c2 = case_for(p, &l2, Cut::ClockAt(k));
+                c2.max_depth = Some(3);
+                let out2 = searchrun::run(&board, &c2, &fresh);
+                w.count("time_limited_searches", 1);
+                report(w, &c2, p, &pos, &out2, None, "clock-managed");
+                prefix_check(w, &c2, &out2, "clock-managed");
             }
         }
     }
